@@ -23,7 +23,12 @@ BAD_ASM = ["LDAM l\nl\nOPR ADD\n", "OPR ADD\nl\nOPR ADD\nSTAM l\n", "OPR ADD\nOP
            "LDAM lab\nLDAC 0\nlab\nLDAC 1\n", "%%%\n", "LDAC 99999999999999999999 X Y Z ( )\n", "LDAM x\nOPR ADD\nOPR ADD\nx\nDATA 1\nLDAC y\n"]
 BAD_X = ["proc main() is", "proc main() is x := 1", "val a = ; proc main() is skip", "proc main() is 3(0)", "proc main() is { skip ; }",
          "proc main() is f(1)", "array a[v]; var v; proc main() is skip", "proc main() is if 1 then skip", "proc main() is 'ab'",
-         "proc main() is \"unterminated", "proc main() is y[0] := 1", "var x; proc main() is x := q + 1", "func main( is skip", "@"]
+         "proc main() is \"unterminated", "proc main() is y[0] := 1", "var x; proc main() is x := q + 1", "func main( is skip", "@",
+         # rejected after parsing, by errors that carry no source location (they come from the embedded assembler)
+         "proc foo() is skip", "val v = 1; proc main() is v := 2", "var f; proc main() is f()", "var f; proc main() is 0(f(1))",
+         "proc p() is skip proc main() is p := 1", "proc p() is skip proc main() is 0(p)", "array a[3]; proc main() is a()",
+         "var main; proc p() is skip", "val v = 1; proc main() is v[0] := 1", "proc main() is { main := 0 }",
+         "func f(val x) is return x + 1 proc helper() is 0(f(1))"]
 
 
 def build():
@@ -109,6 +114,9 @@ def worker(job):
             errs = judge_compile(kind, it["accepted"], it.get("image"), res, it["prefill"])
             h = "%s/%s/%s" % (kind, "accepted" if it["accepted"] else "rejected", it["form"].replace(" ", "_"))
             out["hist"][h] = out["hist"].get(h, 0) + 1
+            if not it["accepted"]:
+                h = "%s/rejected/%s" % (kind, "error-with-source-location" if it.get("located") else "error-without-source-location")
+                out["hist"][h] = out["hist"].get(h, 0) + 1
             out["files_created"] += len(res["new"])
             if out["sample"] is None and it["accepted"]:
                 out["sample"] = {"tool": kind, "args": res["args"], "status": res["rc"], "new_files": sorted(res["new"])}
@@ -139,6 +147,30 @@ def worker(job):
                                                  "source": it["src"].decode("latin-1")[:3000]}))
                             break
             shutil.rmtree(d, ignore_errors=True)
+        elif kind == "xrun-seq":
+            # two xrun invocations in the same directory: the second must not depend on what the first left behind
+            d = common.scratch("c14q")
+            open(os.path.join(d, "first.x"), "wb").write(it["first"])
+            open(os.path.join(d, "p.x"), "wb").write(it["src"])
+            try:
+                subprocess.run([os.path.join(cli, "xrun"), "first.x"], cwd=d, input=b"", stdout=subprocess.PIPE, stderr=subprocess.PIPE, timeout=120)
+                r2 = subprocess.run([os.path.join(cli, "xrun"), "p.x"], cwd=d, input=it["stdin"], stdout=subprocess.PIPE, stderr=subprocess.PIPE, timeout=120)
+                alone = invoke(cli, "xrun", "p.x", it["src"], "default", "", False, stdin=it["stdin"])
+            except subprocess.TimeoutExpired:
+                shutil.rmtree(d, ignore_errors=True)
+                continue
+            shutil.rmtree(d, ignore_errors=True)
+            h = "xrun-after-xrun/%s" % ("accepted" if it["accepted"] else "rejected")
+            out["hist"][h] = out["hist"].get(h, 0) + 1
+            if it["accepted"]:
+                if (r2.stdout, r2.returncode) != (alone["stdout"], alone["rc"]):
+                    out["viol"].append(("xrun:depends-on-earlier-run", {"why": "after another xrun: %r status %s; in a fresh directory: %r status %s"
+                                                                        % (r2.stdout[:60], r2.returncode, alone["stdout"][:60], alone["rc"]),
+                                                                        "first": it["first"].decode("latin-1"), "source": it["src"].decode("latin-1")[:3000]}))
+            elif r2.returncode == 0 or not r2.stderr.strip() or r2.stdout:
+                out["viol"].append(("xrun:rejected-source-ran-something", {"why": "status %s stdout %r stderr %r for a rejected source run after another xrun"
+                                                                           % (r2.returncode, r2.stdout[:60], r2.stderr[:100]),
+                                                                           "first": it["first"].decode("latin-1"), "source": it["src"].decode("latin-1")[:3000]}))
         elif kind == "xrun":
             # xrun f.x  ==  xcmp f.x -o t ; hexsim t   (same stdin)
             r1 = invoke(cli, "xrun", "p.x", it["src"], "default", "", False, stdin=it["stdin"])
@@ -202,7 +234,7 @@ def make_items(tier, rnd):
         o = r["out"]
         if not o["ok"] and o["errtype"] not in ("Error", "std::exception"):
             continue
-        items.append({"kind": "hexasm", "srcname": rnd.choice(["p.S", "prog.asm", "my prog.S"]), "src": s, "accepted": o["ok"],
+        items.append({"kind": "hexasm", "srcname": rnd.choice(["p.S", "prog.asm", "my prog.S"]), "src": s, "accepted": o["ok"], "located": o.get("located"),
                       "image": common.unhex(o["file"]) if o["ok"] else None, "form": rnd.choice(ARGFORMS), "outname": rnd.choice(OUTNAMES),
                       "prefill": rnd.random() < 0.5})
     # ---- X sources
@@ -226,7 +258,7 @@ def make_items(tier, rnd):
         o = r["out"]
         if not o["ok"] and o["errtype"] not in ("Error", "std::exception"):
             continue
-        items.append({"kind": "xcmp", "srcname": rnd.choice(["p.x", "a b.x"]), "src": s, "accepted": o["ok"],
+        items.append({"kind": "xcmp", "srcname": rnd.choice(["p.x", "a b.x"]), "src": s, "accepted": o["ok"], "located": o.get("located"),
                       "image": common.unhex(o["file"]) if o["ok"] else None, "form": rnd.choice(ARGFORMS), "outname": rnd.choice(OUTNAMES),
                       "prefill": rnd.random() < 0.5})
         if rnd.random() < 0.5:
@@ -239,6 +271,9 @@ def make_items(tier, rnd):
             # memory, where it has no defined behaviour) and sources that are rejected (nothing runs)
             if ex is not None or not o["ok"]:
                 items.append({"kind": "xrun", "src": s, "stdin": console, "accepted": o["ok"], "exit": ex})
+                if rnd.random() < 0.5 or not o["ok"]:
+                    items.append({"kind": "xrun-seq", "src": s, "stdin": console, "accepted": o["ok"],
+                                  "first": rnd.choice([b"proc main() is { 1('o', 0); 1('k', 0); 0(0) }", b"proc main() is 0(3)"])})
     # the cycle limit must not change the status of a program that does exit within it (limit = K-1 is the last one that lets
     # the exit call execute, K the instruction count including the exit call)
     probe = []
@@ -286,7 +321,7 @@ def run(tier, replay=None):
             v.sample(o["sample"], limit=4)
         for code, rep in o["viol"]:
             v.violation(code, rep)
-    v.cov["distinct_nontrivial"] = len({(it["kind"], it["src"], it.get("form"), it.get("prefill")) for it in items})
+    v.cov["distinct_nontrivial"] = len({(it["kind"], it["src"], it.get("form"), it.get("prefill"), it.get("first")) for it in items})
     v.cov["rule"] = ("one evaluation = one invocation of a shipped executable in a fresh directory; distinct by (tool, source, argument "
                      "form, whether the output path pre-existed)")
     v.assumptions = ["acceptance ground truth and the expected image come from the in-process library call on the same bytes",
